@@ -121,9 +121,10 @@ static void mode_gain(void){
       for(int i=0;i<n;i++){ int c=vr_check24(og[i],o24[i]); if(c<0){ vc_viol(c==-1?"gain:int24-wraps":"gain:int24-relation","call %d gain %d: 24-bit sample %d is %d for float %.9g (x2^23 = %.9g)",k,g,i,o24[i],og[i],(double)og[i]*8388608.0); goto out; } if(c==1) sat24seen=1; }
     } else {
       /* fixed point: the float view is the 16-bit view / 32768; gained = sat16(round(in*G)) within 1 LSB (+ tolerance of the Q16 gain) */
-      /* the fixed-point gain is a Q16 value in 32 bits: celt_exp2() tops out at 0x7f000000 = 32512.0 (+90.2 dB) */
-      double Gfx=Gnom>32512.0?32512.0:Gnom;
-      for(int i=0;i<n;i++){ double e=(double)o0[i]*32768.0*Gfx; if(e>32767) e=32767; if(e<-32768) e=-32768; double got=(double)og[i]*32768.0; double tol=1.0+fabs(e)*2e-3; if(fabs(got-e)>tol){ vc_viol("gain:fixed-relation","call %d kind %d gain %d: sample %d gain-free %.1f x %.6g -> expected %.1f got %.1f",k,ckind,g,i,o0[i]*32768.0,Gnom,e,got); goto out; } if(o16[i]!=(opus_int16)lrint(got)){ vc_viol("gain:int16-relation","fixed build: 16-bit %d vs float view %.1f",o16[i],got); goto out; } if(fabs(e)>=32767) sat16seen=1; }
+      /* the fixed-point gain is a Q16 value in 32 bits: celt_exp2() tops out at 0x7f000000 = 32512.0 */
+      /* (only from an exponent of 15 on, i.e. a nominal factor >= 32768; just below, the factor follows the nominal value up to ~32767; at the boundary itself either is accepted) */
+      double Gfx=Gnom>=32768.0?32512.0:Gnom; int edge=(Gnom>32700.0&&Gnom<32840.0);
+      for(int i=0;i<n;i++){ double e=(double)o0[i]*32768.0*Gfx; if(e>32767) e=32767; if(e<-32768) e=-32768; double got=(double)og[i]*32768.0; double tol=1.0+fabs(e)*2e-3; double e2=(double)o0[i]*32768.0*(Gfx==32512.0?32767.0:32512.0); if(e2>32767) e2=32767; if(e2<-32768) e2=-32768; if(fabs(got-e)>tol&&!(edge&&fabs(got-e2)<=1.0+fabs(e2)*2e-3)){ vc_viol("gain:fixed-relation","call %d kind %d gain %d: sample %d gain-free %.1f x %.6g -> expected %.1f got %.1f",k,ckind,g,i,o0[i]*32768.0,Gnom,e,got); goto out; } if(o16[i]!=(opus_int16)lrint(got)){ vc_viol("gain:int16-relation","fixed build: 16-bit %d vs float view %.1f",o16[i],got); goto out; } if(fabs(e)>=32767) sat16seen=1; }
       total+=n; }
     }
     if(k>0&&rfc_mode(s.pkt[k][0])!=rfc_mode(s.pkt[k-1][0])) vc_named("gain_transition:%d->%d:%s",rfc_mode(s.pkt[k-1][0]),rfc_mode(s.pkt[k][0]),kind==0?"received":"lost");
